@@ -47,7 +47,7 @@ BOUNDS = {
     "quick": {"programs": [(1, 3, "all"), (2, 3, "all"), (3, 3, "all"), (4, 3, "all"), (3, 2, "all", "obj")],
               "pure": (5, 3)},
     "thorough": {"programs": [(1, 3, "all"), (2, 3, "all"), (3, 3, "all"), (4, 3, "all"),
-                              (5, 3, "all"), (6, 2, "last"), (3, 3, "all", "obj"), (4, 2, "all", "obj")],
+                              (5, 2, "all"), (3, 3, "all", "obj"), (4, 2, "all", "obj")],
                  "pure": (6, 3)},
 }
 
